@@ -113,6 +113,22 @@ func SelftestMain(args []string) int {
 			jobs = append(jobs, run.Job{ID: fmt.Sprintf("kmi/%d/%d", i, e), Pkg: run.Module, Harness: "H_SelfKMI", Params: p, Values: vals})
 		}
 	}
+	// (iii) library models (sorting through the real less/Swap, call-through, sentinel errors)
+	nLib := 24
+	if *tier == "thorough" {
+		nLib = 120
+	}
+	for i := 0; i < nLib; i++ {
+		n := 1 + i%8
+		vals := map[string]uint64{}
+		for k := 0; k < n; k++ {
+			vals[fmt.Sprintf("k%d", k)] = uint64(rng.Intn(256))
+			if rng.Intn(3) == 0 && k > 0 {
+				vals[fmt.Sprintf("k%d", k)] = vals[fmt.Sprintf("k%d", k-1)] // ties
+			}
+		}
+		jobs = append(jobs, run.Job{ID: fmt.Sprintf("lib/%d", i), Pkg: run.Module, Harness: "H_SelfLib", Params: map[string]interface{}{"n": n}, Values: vals})
+	}
 	for i := range jobs {
 		jobs[i].Property = "selftest"
 	}
@@ -186,7 +202,7 @@ func SelftestMain(args []string) int {
 		bad += kbad
 	}
 	sum := map[string]interface{}{"kernel_validation": kernelSummary, "tier": *tier, "seed": seed, "instances": len(jobs), "observations_compared": compared, "failures": bad, "wall_s": time.Since(t0).Seconds(),
-		"what": "H_Sig: every raw instruction of compiled concrete policies, engine vs native; H_SelfKMI: kernel model result on concrete events, engine vs native, and natively vs x/net/bpf's VM (big-endian layout) and vs the reference decision"}
+		"what": "H_Sig: every raw instruction of compiled concrete policies, engine vs native; H_SelfKMI: kernel model result on concrete events, engine vs native, and natively vs x/net/bpf's VM (big-endian layout) and vs the reference decision; H_SelfLib: the library models (sort.Slice/SliceStable/Sort/Ints through the real less and Swap, call-through of pure string/number functions, sentinel errors and the %w chain) on concrete inputs, engine vs native"}
 	b, _ := json.MarshalIndent(sum, "", " ")
 	os.MkdirAll(filepath.Join(*verif, "selftest"), 0o755)
 	os.WriteFile(filepath.Join(*verif, "selftest", "last.json"), b, 0o644)
